@@ -44,6 +44,8 @@ type profile struct {
 	pStall     float64 // a wait that is followed by another layer loses the deliveries of one object and times out
 	pMassStall float64 // a wait with two or more objects times out with most of them still pending (default 0.06)
 	pEmpty     float64 // apply runs with an empty (or unrelated single-object) apply set: prune everything (default 0.06)
+	pFault     float64 // faults "one": probability of a fault per run (default 0.5)
+	budget     int     // runs in the quick tier (default 780; thorough = 8 times as many)
 	pLate      float64 // per wait group: late status deliveries while the group completes and the consumer is slow (default 0.06)
 }
 
@@ -51,7 +53,7 @@ var profiles = map[string]profile{
 	"C01": {name: "C01", runsMin: 1, runsMax: 2, pDestroy: 0.3, pNoPrune: 0.3, dry: []Dry{DNone, DNone, DNone, DNone, DNone, DClient, DServer},
 		pSSA: 0.2, pInvalid: 0.2, pBadGraph: 0.1, pLiveBad: 0.15, pDeps: 0.2, varied: true, pTimeouts: 0.3, faults: "enum", pCRD: 0.1, pKeep: 0.3, pMassStall: 0.15},
 	"C02": {name: "C02", runsMin: 1, runsMax: 2, pDestroy: 0.4, pNoPrune: 0.1, dry: []Dry{DNone},
-		pSSA: 0.2, pInvalid: 0.05, pBadGraph: 0.03, pLiveBad: 0.05, pDeps: 0.1, varied: true, pTimeouts: 0.2, faults: "none", pAlias: 0.12, pKeep: 0.35, pEmpty: 0.15},
+		pSSA: 0.2, pInvalid: 0.05, pBadGraph: 0.03, pLiveBad: 0.05, pDeps: 0.1, varied: true, pTimeouts: 0.2, faults: "none", pAlias: 0.2, pKeep: 0.35, pEmpty: 0.15},
 	"C03": {name: "C03", runsMin: 2, runsMax: 4, pDestroy: 0.25, pNoPrune: 0.15, dry: []Dry{DNone},
 		pSSA: 0.2, pInvalid: 0.05, pBadGraph: 0.03, pLiveBad: 0.03, pDeps: 0.15, varied: false, pTimeouts: 0.1, faults: "none", pIdentical: 0.35, pCRD: 0.1, pAlias: 0.03},
 	"C04": {name: "C04", runsMin: 1, runsMax: 2, pDestroy: 0.0, pNoPrune: 0.2, dry: []Dry{DNone, DNone, DNone, DNone, DClient},
@@ -66,6 +68,12 @@ var profiles = map[string]profile{
 		pSSA: 0.15, pInvalid: 0.05, pBadGraph: 0.03, pLiveBad: 0.03, pDeps: 0.3, varied: true, pTimeouts: 0.6, faults: "none", pCancel: 0.6, pWatchErr: 0.2, pLate: 0.15, pMassStall: 0.35},
 	"C13": {name: "C13", runsMin: 1, runsMax: 3, pDestroy: 0.3, pNoPrune: 0.2, dry: []Dry{DNone, DNone, DNone, DNone, DClient, DServer},
 		pSSA: 0.2, pInvalid: 0.25, pBadGraph: 0.15, pLiveBad: 0.1, pDeps: 0.3, varied: true, pTimeouts: 0.4, faults: "pairs", pCancel: 0.25, pWatchErr: 0.3, pLate: 0.15, pCRD: 0.1, pKeep: 0.25, pMassStall: 0.15},
+	// C06p: the wait verdicts seen through the whole pipeline (check_C06p, merged into the C06 check): objects
+	// whose actuation fails or is skipped (rejected filter read, dependency verdicts, rejected apply / delete /
+	// annotation removal, keep) followed by waits in which the watcher reports them Current / NotFound / nothing
+	"C06p": {name: "C06p", runsMin: 1, runsMax: 2, pDestroy: 0.3, pNoPrune: 0.1, dry: []Dry{DNone},
+		pSSA: 0.2, pInvalid: 0.05, pBadGraph: 0.05, pLiveBad: 0.05, pDeps: 0.4, varied: true, pTimeouts: 0.5, faults: "one", pFault: 0.8,
+		pKeep: 0.3, pStall: 0.2, budget: 400},
 }
 
 func chance(r *rand.Rand, p float64) bool { return r.Float64() < p }
@@ -767,8 +775,25 @@ func genEnv(r *rand.Rand, p profile, op *Opts, cur Cluster, probe RunResult, loc
 	if chance(r, p.pWatchErr) && len(env.Waits) > 0 {
 		env.WatchErrAt = r.Intn(len(env.Waits))
 	}
-	if p.faults == "one" && len(probe.Addrs) > 0 && chance(r, 0.5) {
-		env.Faults = []FAddr{withErrKind(r, probe.Addrs[r.Intn(len(probe.Addrs))])}
+	pf := 0.5
+	if p.pFault > 0 {
+		pf = p.pFault
+	}
+	if p.faults == "one" && len(probe.Addrs) > 0 && chance(r, pf) {
+		cand := probe.Addrs
+		if p.pFault > 0 && chance(r, 0.8) {
+			// the requests about single objects: reads, applies, deletes, annotation removals
+			var obj []FAddr
+			for _, a := range probe.Addrs {
+				if a.Kind == "FGet" || a.Kind == "FApply" || a.Kind == "FDelete" || a.Kind == "FUpdate" {
+					obj = append(obj, a)
+				}
+			}
+			if len(obj) > 0 {
+				cand = obj
+			}
+		}
+		env.Faults = []FAddr{withErrKind(r, cand[r.Intn(len(cand))])}
 	}
 	return env
 }
@@ -1395,24 +1420,26 @@ func (c *collector) corpus() {
 	c.fixedHistory(up, Cluster{NextUID: 100}, []fixedRun{{local: twoObjs, opts: plain}, {local: twoObjs, opts: plain}, {local: twoObjs[:1], opts: plain}})
 	c.fixedHistory(up, two, []fixedRun{{local: []LObj{{ID: 0, Ver: 2}, {ID: 1, Ver: 2}}, opts: Opts{Prune: true, Policy: PMustMatch, SSA: true}}})
 	// 17. a uid alias in the prune set while its applied twin reports Current / Failed / InProgress
-	// until the timeout / nothing
-	ua := NewUniverse([]UEntry{Entry("ConfigMap", invNS, "cm-a"), Entry("Secret", invNS, "sec-a")})
-	twins := Cluster{NextUID: 100, HasInv: true, Inv: []int{0, 1}, Objs: []CObj{
-		CObj{ID: 0, UID: 7, Owner: OOurs, Ver: 1}.Applied(), CObj{ID: 1, UID: 7, Owner: OOurs, Ver: 1}.Applied()}}
-	aliasRun := func(t bool) fixedRun {
-		return fixedRun{local: []LObj{{ID: 0, Ver: 2}}, opts: Opts{Prune: true, Policy: PMustMatch, RecTimeout: t}}
+	// until the timeout / nothing (only where the monitors know about aliases: C02, C03)
+	if c.prop == "C02" || c.prop == "C03" {
+		ua := NewUniverse([]UEntry{Entry("ConfigMap", invNS, "cm-a"), Entry("Secret", invNS, "sec-a")})
+		twins := Cluster{NextUID: 100, HasInv: true, Inv: []int{0, 1}, Objs: []CObj{
+			CObj{ID: 0, UID: 7, Owner: OOurs, Ver: 1}.Applied(), CObj{ID: 1, UID: 7, Owner: OOurs, Ver: 1}.Applied()}}
+		aliasRun := func(t bool) fixedRun {
+			return fixedRun{local: []LObj{{ID: 0, Ver: 2}}, opts: Opts{Prune: true, Policy: PMustMatch, RecTimeout: t}}
+		}
+		c.fixedHistory(ua, twins, []fixedRun{aliasRun(false)})
+		fr := aliasRun(false)
+		fr.replace = map[int][]SObs{0: {{ID: 0, St: SFailed, Body: true, UID: 7, Gen: objGen}}}
+		c.fixedHistory(ua, twins, []fixedRun{fr})
+		fr = aliasRun(true)
+		fr.replace = map[int][]SObs{0: {{ID: 0, St: SInProgress, Body: true, UID: 7, Gen: objGen}}}
+		fr.stall = []int{0}
+		c.fixedHistory(ua, twins, []fixedRun{fr})
+		fr = aliasRun(true)
+		fr.stall = []int{0}
+		c.fixedHistory(ua, twins, []fixedRun{fr})
 	}
-	c.fixedHistory(ua, twins, []fixedRun{aliasRun(false)})
-	fr := aliasRun(false)
-	fr.replace = map[int][]SObs{0: {{ID: 0, St: SFailed, Body: true, UID: 7, Gen: objGen}}}
-	c.fixedHistory(ua, twins, []fixedRun{fr})
-	fr = aliasRun(true)
-	fr.replace = map[int][]SObs{0: {{ID: 0, St: SInProgress, Body: true, UID: 7, Gen: objGen}}}
-	fr.stall = []int{0}
-	c.fixedHistory(ua, twins, []fixedRun{fr})
-	fr = aliasRun(true)
-	fr.stall = []int{0}
-	c.fixedHistory(ua, twins, []fixedRun{fr})
 	// 18. two identifiers that differ in the API group only (x1 = Bar company.com, x2 = Bar other.example.com,
 	// same namespace and name), a third object depending on one of them; held by a finalizer, request rejected
 	for _, fin := range []bool{false, true} {
@@ -1428,6 +1455,19 @@ func (c *collector) corpus() {
 		all3 := func(dep int) []LObj {
 			return []LObj{{ID: 0, Ver: 1, Deps: []int{dep}}, {ID: 1, Ver: 1}, {ID: 2, Ver: 1}}
 		}
+		// both twins depend on the third object: when the delete of one of them is rejected (or it
+		// lingers), the third object must not be deleted
+		bothDep := Cluster{NextUID: 100, HasInv: true, Inv: []int{0, 1, 2}, Objs: []CObj{
+			CObj{ID: 0, UID: 1, Owner: OOurs, Ver: 1}.Applied(), CObj{ID: 1, UID: 2, Owner: OOurs, Ver: 1, Deps: []int{0}}.Applied(),
+			CObj{ID: 2, UID: 3, Owner: OOurs, Ver: 1, Deps: []int{0}}.Applied()}}
+		for _, victim := range []int{1, 2} {
+			for k := range []int{0, 1} {
+				c.fixedHistory(ux, bothDep, []fixedRun{{opts: dT, faults: []FAddr{{Kind: "FDelete", I: victim, Err: k}}}})
+			}
+			c.fixedHistory(ux, bothDep, []fixedRun{{local: []LObj{{ID: 3 - victim, Ver: 1, Deps: []int{0}}}, opts: Opts{Prune: true, Policy: PMustMatch, PruneTimeout: true},
+				faults: []FAddr{{Kind: "FDelete", I: victim}}}})
+		}
+		c.fixedHistory(ux, bothDep, []fixedRun{{opts: dT}, {opts: dT}})
 		for _, dep := range []int{1, 2} {
 			c.fixedHistory(ux, live3(dep), []fixedRun{{opts: dT}, {opts: dT}})
 			c.fixedHistory(ux, live3(dep), []fixedRun{{opts: dT, faults: []FAddr{{Kind: "FDelete", I: 1}}}})
@@ -1614,6 +1654,30 @@ func (c *collector) variants(r *rand.Rand, p profile, st *Store, h History, sc S
 
 // ---- entry point --------------------------------------------------------------------------------------
 
+// AddCases runs the profile `prop` and merges its case files, evaluations,
+// distribution and implementation failures into the summary of another check
+// (the way c11plan.AddCases extends the C11 summary).
+func AddCases(sum *emit.Summary, prop string, seed int64, tier, outDir string) error {
+	sub, err := RunFor(prop)(seed, tier, outDir)
+	if err != nil {
+		return err
+	}
+	sum.Evaluations += sub.Evaluations
+	sum.DistinctNontrivial += sub.DistinctNontrivial
+	sum.CaseFiles = append(sum.CaseFiles, sub.CaseFiles...)
+	for k, v := range sub.CaseText {
+		sum.CaseText[k] = v
+	}
+	for k, v := range sub.Distribution {
+		sum.Distribution[prop+":"+k] += v
+	}
+	sum.ImplFailures = append(sum.ImplFailures, sub.ImplFailures...)
+	sum.Extra[prop] = sub.Extra
+	sum.Rule += " | " + prop + ": " + sub.Rule
+	sum.Samples = append(sum.Samples, sub.Samples...)
+	return nil
+}
+
 // RunFor returns the runner of one property.
 func RunFor(prop string) emit.Runner {
 	return func(seed int64, tier, outDir string) (*emit.Summary, error) {
@@ -1641,6 +1705,12 @@ func runProfile(p profile, seed int64, tier, outDir string) (*emit.Summary, erro
 	budget := 780
 	if tier == "thorough" {
 		budget = 6000
+	}
+	if p.budget > 0 {
+		budget = p.budget
+		if tier == "thorough" {
+			budget = 8 * p.budget
+		}
 	}
 	t0 := time.Now()
 	c.corpus()
